@@ -194,7 +194,25 @@ def check_parse(case: dict) -> Verdict:
     else:
         value = case["value"]
     exc = build_exc(case, value)
-    desc = f"shape={case['shape']} key={case.get('key')!r} value={_short(value)}"
+    desc = f"shape={case['shape']} key={case.get('key')!r} value={_short(value)}" + (f" TZ={case['tz']}" if case.get("tz") else "")
+    import time as _time
+
+    old_tz = os.environ.get("TZ")
+    if case.get("tz"):
+        os.environ["TZ"] = case["tz"]  # the client process need not run in UTC
+        _time.tzset()
+    try:
+        return _check_parse(case, value, aware, exc, desc, v)
+    finally:
+        if case.get("tz"):
+            if old_tz is None:
+                os.environ.pop("TZ", None)
+            else:
+                os.environ["TZ"] = old_tz
+            _time.tzset()
+
+
+def _check_parse(case, value, aware, exc, desc, v):
     before = dt.datetime.now(UTC)
     try:
         got = http_retry_after_classifier(exc)
@@ -296,13 +314,14 @@ def date_st():
 
 
 def near_now_date_st():
-    """Dates within +/- 2 hours of the real now (clamp at 0 is exercised on both sides)."""
+    """Dates within +/- 2 hours of the real now (clamp at 0 is exercised on both sides), in every style."""
 
-    def mk(delta):
+    def mk(t):
+        delta, style = t
         d = dt.datetime.now(UTC).replace(microsecond=0) + dt.timedelta(seconds=delta)
-        return {"y": d.year, "mo": d.month, "d": d.day, "h": d.hour, "mi": d.minute, "s": d.second, "style": "gmt", "off": 0}
+        return {"y": d.year, "mo": d.month, "d": d.day, "h": d.hour, "mi": d.minute, "s": d.second, "style": style, "off": 0}
 
-    return st.integers(-7200, 7200).map(mk)
+    return st.tuples(st.integers(-7200, 7200), st.sampled_from(["gmt", "gmt", "naive", "asctime", "rfc850"])).map(mk)
 
 
 def garbage_st():
@@ -333,6 +352,8 @@ def parse_case(draw):
     kind = draw(st.sampled_from(["digits", "digits", "digits", "odd", "date", "date", "neardate", "garbage", "nonstring"]))
     if kind in ("date", "neardate"):
         case["date"] = draw(date_st() if kind == "date" else near_now_date_st())
+        if gen.chance(draw, 0.4, "c20-tz"):
+            case["tz"] = draw(st.sampled_from(["JST-9", "EST5EDT", "UTC", "NZST-12", "HST10"]))
         if gen.chance(draw, 0.3, "c20-pad"):
             case["pad"] = draw(st.sampled_from([[" ", ""], ["", " "], ["  ", "\t"]]))
     elif kind == "digits":
@@ -522,7 +543,7 @@ PROP = Property(
         "Grammar-based Hypothesis generation of Retry-After values (digit strings of length 1..5000 incl. 308/309/310 and "
         "4300/4301, signs, inner/outer whitespace, underscores, Unicode digits, decimals, exponents; HTTP-dates rendered from "
         "generated datetimes (years 100..9999, offsets -14h..+14h, GMT / numeric offset / naive / RFC 850 / asctime, +/- 2 h "
-        "around now); garbage text; ints of any size, floats incl. NaN/inf, bools, bytes, lists) x 11 container shapes "
+        "around now, 40 % of them evaluated under a non-UTC local TZ); garbage text; ints of any size, floats incl. NaN/inf, bools, bytes, lists) x 11 container shapes "
         "(exc.retry_after, dict with any key casing, list of pairs, .get-only and .get+.items objects, response.headers, a "
         "container that raises) x status via status/status_code/code/args; exhaustive digit-string lengths 1..600 (quick) / "
         "1..5000 (thorough) and powers of ten up to 10**413 as int attribute; Atheris (coverage-guided, libFuzzer) campaigns on "
